@@ -302,6 +302,8 @@ func runC18(c *Ctx) {
 	c.inflightRemovalRule("R18.6")
 	c.rule("R18.7", "calls on a closed or closing client end: a request is re-sent only on the wire's temporary-connection code, never on a local send error")
 	c.retryGateRule("R18.7")
+	c.rule("R18.10", "every channel obtained from the client is closed after a close also when values are still buffered: the buffering goroutine's exit test looks at the buffer itself")
+	c.closeWhenDrained("R18.10")
 	c.rule("R18.9", "closing while streams are active cannot crash: a sink is removed from the table, under its lock, before it is closed (a queued value frame then no longer finds it)")
 	c.deleteThenClose("R18.9")
 	c.rule("R18.8", "the exit cleanup takes the sink-table lock, which the frame executor holds while it hands a value to a stream's buffering goroutine: that goroutine always keeps receiving (a lagging consumer cannot make the closer wait for ever)")
